@@ -5,6 +5,8 @@ from ..pse import truth
 from . import common as cm
 
 LAYOUTS = [[], ["R/A/AA"], ["R/A/AA", "R/AB"], ["R/A/AA/AAA", "R/A/AA"], ["R/A", "R/A/AA", "R/A/AA/AAA"]]
+EDITS = {1: "newline appended", 2: "bit flipped", 3: "CR inserted before a LF", 4: "last byte truncated", 5: "converted to CRLF",
+         6: "blank inserted", 7: "comment appended"}
 COMMANDS = ["create", "create-sf", "verify", "verify-sf", "verify-dh", "diff", "info", "info-sf", "flatten"]
 
 
@@ -40,9 +42,10 @@ def scenario(tier):
             if kind == "modify":
                 # kind of byte edit (the model only sees "content differs"; the real replay performs exactly this edit):
                 # append newline | flip a bit | insert CR before a LF | truncate | CRLF conversion | insert a blank | append a comment
-                b.alter(target, sym.choose("edit_kind", [1, 2, 3, 4, 5, 6, 7]))
+                ek = sym.choose("edit_kind", [1, 2, 3, 4, 5, 6, 7])
+                b.alter(target, ek)
                 exp, exc = 31, "ModifiedMHLManifestFileException"
-                what = "manifest %s of %s modified" % (name[:4], hist)
+                what = "manifest %s of %s modified (%s)" % (name[:4], hist, EDITS[ek])
             else:
                 b.delete(target)
                 exp, exc = 33, "MissingMHLManifestException"
@@ -69,7 +72,8 @@ def scenario(tier):
         else:
             r = b.run("flatten", root="R", dest="OUT")
         ctx = "%s; %s -> exit %s exc %s" % (what, cmd, r.exit, r.exc)
-        b.require(r.exit == exp and r.exc == exc, "refused-with-dedicated-code", "expected %d: %s" % (exp, ctx))
+        aid = "refused-with-dedicated-code" if kind != "modify" else "modified-manifest-refused/" + EDITS[ek].replace(" ", "-")
+        b.require(r.exit == exp and r.exc == exc, aid, "expected %d: %s" % (exp, ctx))
         if r.ops is not None:
             b.require(r.ops == [], "nothing-written", "%s ops %s" % (ctx, r.ops[:4]))
         after = b.snapshot("")
